@@ -267,4 +267,66 @@ theorem decimation_sublist (x : List ℚ) (m : ℕ) (hm : 1 ≤ m) (even : Bool)
 
 example : (interpValues [0, 1, 2, 3, 4, 5, 6] (1 / ((3 : ℕ) : ℚ)) true) = [0, 3] := by decide +kernel
 
+/-! ## C14.d — covered duration, even length -/
+
+/-- **C14.d (even length)** the output length is even whenever `even=True`, for every factor. -/
+theorem even_length (x : List ℚ) (f : ℚ) : 2 ∣ (interpValues x f true).length := by
+  rw [length_interpValues]; exact even_outLen _ _
+
+example : (interpValues [1, 2, 3, 4, 5, 6, 7] (1 / 2) true).length = 2 ∧
+    (interpValues [1, 2, 3] 3 true).length = 8 := by decide +kernel
+
+/-- **C14.d** covered duration, `dt, target > 0`, `factor = factorRule (dt/target)`, `new_dt = dt/factor`,
+`L = len out`: `|(L − 1)·new_dt − (n − 1)·dt| < 2·max(dt, new_dt)` for `even=False` (any quotient) and for
+refinement (`dt/target ≥ 1`, any `even`). -/
+theorem covered_duration (x : List ℚ) (dt target : ℚ) (hdt : 0 < dt) (ht : 0 < target) (even : Bool)
+    (hcase : even = false ∨ 1 ≤ dt / target) :
+    |(((interpValues x (factorRule (dt / target)) even).length : ℚ) - 1) * (dt / factorRule (dt / target))
+        - ((x.length : ℚ) - 1) * dt|
+      < 2 * max dt (dt / factorRule (dt / target)) := by
+  rw [length_interpValues]
+  obtain ⟨-, -, hge, hlt, -⟩ := factor_rule dt target hdt ht
+  rcases le_or_gt 1 (dt / target) with h1 | h1
+  · obtain ⟨-, k, hk, hf⟩ := hge h1
+    rw [hf]; exact duration_refine x.length k hk dt hdt even
+  · obtain ⟨-, m, hm, hf⟩ := hlt h1
+    have hev : even = false := by
+      rcases hcase with h | h
+      · exact h
+      · exact absurd h (not_le.mpr h1)
+    have hf' : factorRule (dt / target) = 1 / (m : ℚ) := by
+      rw [← hf, one_div_one_div]
+    rw [hf', hev]; exact duration_decim_odd x.length m hm dt hdt
+
+-- non-vacuity: decimation by 9 without `even` (4 samples cover 0.27 s of 0.32 s), refinement by 4 with `even`
+example : (0:ℚ) < 1/100 ∧ (0:ℚ) < 9/100 ∧ factorRule ((1/100) / (9/100)) = 1/9 ∧
+    outLen 33 (1/9) false = 4 ∧ factorRule ((7/100) / (1/50)) = 4 ∧ outLen 33 4 true = 132 := by decide +kernel
+
+/-- **C14.d, decimation with `even=True`** — `duration_even_decimation_partial`.
+Full statement of the property ("the covered duration changes by less than two steps",
+`< 2·max(dt, new_dt)`) is **false** here: the code computes `2·int((n/m)/2)` from the *fractional* count `n/m`
+and can drop almost two samples more than `arange(n/m)` keeps (finding F14-1; counterexample below).
+What holds, and is proved: `|(L − 1)·new_dt − (n − 1)·dt| < 3·new_dt`. -/
+theorem duration_even_decimation_partial (x : List ℚ) (dt target : ℚ) (hdt : 0 < dt) (ht : 0 < target)
+    (hq : dt / target < 1) :
+    |(((interpValues x (factorRule (dt / target)) true).length : ℚ) - 1) * (dt / factorRule (dt / target))
+        - ((x.length : ℚ) - 1) * dt|
+      < 3 * (dt / factorRule (dt / target)) := by
+  rw [length_interpValues]
+  obtain ⟨-, -, -, hlt, -⟩ := factor_rule dt target hdt ht
+  obtain ⟨-, m, hm, hf⟩ := hlt hq
+  have hf' : factorRule (dt / target) = 1 / (m : ℚ) := by
+    rw [← hf, one_div_one_div]
+  rw [hf']; exact duration_decim_even x.length m hm dt hdt
+
+/-- kernel-checked counterexample to the "< 2 steps" statement for decimation with `even=True`:
+`n = 33`, `dt = 1/100`, `target = 9/100` → factor `1/9`, `2` output samples, covered duration `0.09` instead of
+`0.32`: the difference `0.23` is `2.56` new steps. -/
+example :
+    let dt : ℚ := 1/100; let target : ℚ := 9/100; let f := factorRule (dt / target)
+    f = 1/9 ∧ outLen 33 f true = 2 ∧
+    ¬ (abs ((((outLen 33 f true : ℕ) : ℚ) - 1) * (dt / f) - ((33 : ℚ) - 1) * dt) < 2 * max dt (dt / f)) ∧
+    (abs ((((outLen 33 f true : ℕ) : ℚ) - 1) * (dt / f) - ((33 : ℚ) - 1) * dt) < 3 * (dt / f)) := by
+  decide +kernel
+
 end EqsigVerif.Props.C14
